@@ -298,6 +298,9 @@ impl<'a> Sampler<'a> {
                         Optionality::Optional => depth < 3 && (variant as usize + i) % 2 == 0,
                         Optionality::Default(_) => false,
                     };
+                    if matches!(c.opt, Optionality::Default(_)) && matches!(c.ty.kind, TyKind::Str(StrKind::Teletex)) {
+                        return Err("TeletexString DEFAULT (the generated default function panics in rasn 0.27's 4-octet TeletexString)".into());
+                    }
                     if is_set && matches!(c.opt, Optionality::Default(_)) {
                         return Err("SET with a DEFAULT component (rasn's SET decoder reports an absent DEFAULT component as missing)".into());
                     }
